@@ -58,10 +58,10 @@ def execute(
     """
     if n_processes == 1:
         all_outputs: list[ReturnT | None] = []
-        for input_ in inputs:
+        for index, input_ in enumerate(inputs):
             outputs = worker(input_)
             for callback in callbacks:
-                callback(0, outputs)
+                callback(index, outputs)
             all_outputs.append(outputs)
 
         return all_outputs
